@@ -12,9 +12,13 @@
    Poly1Dom: guards are loc_eqb tests, locals are T n, the order of the assignments is preserved; the Euclid loop of
    gcd(F,S,T,A,B) / lcm / invmod is a Fixpoint on fuel whose body is the code's loop body; coefficient loops are
    atomic read-then-write steps when they are index based on a destination resized to its own size or read all
-   their operands first (assign, add, sub, neg, div by a coefficient, modin, invmod), and contracts with a hazard
-   (junk) when they are not (pdivmod, pmod).
-   Locals: T 0..T 9 belong to ModelPoly.v; T 20..T 34 Extension; T 40.. Poly1Dom here.
+   their operands first (assign, add, sub, neg, div by a coefficient), and contracts with a hazard
+   (junk) when they are not (pdivmod, pmod).  invmod(S0,A,B) is modelled statement by statement (P_invmod) with the
+   S half of the same loop body as gcd(F,S0,T0,A,B); div(Q,A,B) is ModelPoly.P_div; modin(A,B) is one store write
+   whose value is the in place algorithm run round by round on cell lists (pmodin_gen), B's cells being those of the
+   current A at every round when B is the object A.
+   _irred (Extension) is a VALUE: an operand that is either a caller object or a domain constant is a `parg`.
+   Locals: T 0..T 9, T 70..T 72 belong to ModelPoly.v; T 20..T 34 Extension; T 40.. Poly1Dom here (T 73..T 75 invmod).
    Scalars (Type_t locals r0, r1, tt, m) are values of the monad, not objects. *)
 From Coq Require Import ZArith List Bool.
 From C15 Require Import Model ModelPoly.
@@ -24,48 +28,83 @@ Local Open Scope Z_scope.
 (* ------------------------------------------------------------------ value level *)
 Section ExtValues.
   Variable p : Z.
+  (* pdeg1 pz pc ple1 pge leadv pconst pdivsc set0: ModelPoly.v *)
   Definition pmodv (a b : poly) : poly := strip0 p (psubv p a (strip0 p (pmulv p (pdivv p a b) b))).
-  Definition pdeg1 (a : poly) : nat := length (strip0 p a).            (* degree + 1; 0 for the zero polynomial *)
-  Definition pz (a : poly) : bool := (pdeg1 a =? 0)%nat.                (* deg < 0 / isZero *)
-  Definition pc (a : poly) : bool := (pdeg1 a =? 1)%nat.                (* deg = 0 *)
-  Definition ple1 (a : poly) : bool := (pdeg1 a <=? 1)%nat.             (* deg <= 0 *)
-  Definition pge (a b : poly) : bool := (pdeg1 b <=? pdeg1 a)%nat.      (* deg a >= deg b *)
-  Definition leadv (a : poly) : Z := lead (strip0 p a).                 (* leadcoef: 0 for the zero polynomial *)
   Definition nz1 (c : Z) : Z := if c =? 0 then 1 else c.                (* if (isZero(r1)) r1 = one *)
-  Definition pconst (c : Z) : poly := strip0 p [c].                     (* assign(P, Degree(0), c) *)
   Definition pmulsc (a : poly) (c : Z) : poly := strip0 p (pscal p c a).              (* mulin(R, u) *)
-  Definition pdivsc (a : poly) (c : Z) : poly := strip0 p (pscal p (invmod c p) a).   (* div(R, P, u) / divin(R, u) *)
-  Definition set0 (a : poly) (c : Z) : poly := match a with [] => [c] | _ :: t => c :: t end.
 
   (* the state of the extended Euclid loop shared by gcd(F,S0,T0,A,B), lcm and invmod *)
   Record xst : Type := XS { xF : poly; xG : poly; xS0 : poly; xS1 : poly; xT0 : poly; xT1 : poly }.
   Definition xstepv (s : xst) : xst :=
     let Q := pdivv p (xF s) (xG s) in
-    let r1 := nz1 (leadv (pmodv (xF s) (xG s))) in
-    XS (strip0 p (xG s)) (pdivsc (pmodv (xF s) (xG s)) r1)
-       (strip0 p (xS1 s)) (pdivsc (strip0 p (psubv p (xS0 s) (strip0 p (pmulv p Q (xS1 s))))) r1)
-       (strip0 p (xT1 s)) (pdivsc (strip0 p (psubv p (xT0 s) (strip0 p (pmulv p Q (xT1 s))))) r1).
+    let r1 := nz1 (leadv p (pmodv (xF s) (xG s))) in
+    XS (strip0 p (xG s)) (pdivsc p (pmodv (xF s) (xG s)) r1)
+       (strip0 p (xS1 s)) (pdivsc p (strip0 p (psubv p (xS0 s) (strip0 p (pmulv p Q (xS1 s))))) r1)
+       (strip0 p (xT1 s)) (pdivsc p (strip0 p (psubv p (xT0 s) (strip0 p (pmulv p Q (xT1 s))))) r1).
   Fixpoint xloopv (n : nat) (s : xst) : xst :=
     match n with
     | O => s
-    | S n' => if pz (xG s) then s else xloopv n' (xstepv s)
+    | S n' => if pz p (xG s) then s else xloopv n' (xstepv s)
     end.
-  Definition xfuel (a b : poly) : nat := S (S (pdeg1 a + pdeg1 b)).
+  Definition xfuel (a b : poly) : nat := S (S (pdeg1 p a + pdeg1 p b)).
 
-  (* invmod(S0, A, B) on values: the code's algorithm (S-half of the loop above) *)
+  (* invmod(S0, A, B) on values: the code's algorithm, the S half of the loop above *)
+  Record yst : Type := YS { yF : poly; yG : poly; yS0 : poly; yS1 : poly }.
+  Definition ystepv (s : yst) : yst :=
+    let Q := pdivv p (yF s) (yG s) in
+    let r1 := nz1 (leadv p (pmodv (yF s) (yG s))) in
+    YS (strip0 p (yG s)) (pdivsc p (pmodv (yF s) (yG s)) r1)
+       (strip0 p (yS1 s)) (pdivsc p (strip0 p (psubv p (yS0 s) (strip0 p (pmulv p Q (yS1 s))))) r1).
+  Fixpoint yloopv (n : nat) (s : yst) : yst :=
+    match n with
+    | O => s
+    | S n' => if pz p (yG s) then s else yloopv n' (ystepv s)
+    end.
   Definition pinvmodv (a b : poly) : poly :=
-    if ple1 a || ple1 b then pconst (invmod (leadv a) p)
-    else xS0 (xloopv (xfuel a b)
-                (XS (pdivsc (strip0 p a) (leadv a)) (pdivsc (strip0 p b) (leadv b))
-                    (pconst (invmod (leadv a) p)) [] [] [])).
+    if ple1 p a || ple1 p b then pconst p (invmod (leadv p a) p)
+    else yS0 (yloopv (xfuel a b)
+                (YS (pdivsc p (strip0 p a) (leadv p a)) (pdivsc p (strip0 p b) (leadv p b))
+                    (pconst p (invmod (leadv p a) p)) [])).
+
+  (* modin(A,B), givpoly1muldiv.inl:333-369, on big endian cell lists (reverse iterators): ra the cells of A, rb those of
+     B.  One round of `for (; i>=0; --i)`: l = lc(A)/lc(B); the cells *ai - l * *bi are produced from the top; the
+     first inner loop leaves the top cell in place while they are zero (one extra --i each), the second writes the
+     others below it, the third moves the rest of A up and a zero closes the written part; the cells below keep their
+     old content.  Within a round every cell is read before it is written (aai trails ai; bi is at the offset of ai).
+     Result: the cells and the number j of extra decrements of i *)
+  Fixpoint map2z (f : Z -> Z -> Z) (a b : list Z) : list Z :=
+    match a, b with x :: a', y :: b' => f x y :: map2z f a' b' | _, _ => [] end.
+  Fixpoint lead0 (l : list Z) : nat :=
+    match l with c :: r => if c =? 0 then S (lead0 r) else O | [] => O end.
+  Definition modin_round (ra rb : list Z) : list Z * nat :=
+    let l := (hd 0 ra * invmod (hd 0 rb) p) mod p in
+    let ts := map2z (fun x y => (x - l * y) mod p) (tl ra) (tl rb) in
+    let j := lead0 ts in
+    (skipn j ts ++ skipn (length (tl rb)) (tl ra) ++ [0] ++ skipn (length ra - j) ra, j).
+  (* the rounds; self = B is the same object as A: its cells are those of the current A at every round *)
+  Fixpoint modin_loop (fuel : nat) (self : bool) (rb ra : list Z) (i : Z) : list Z * Z :=
+    match fuel with
+    | O => (ra, i)
+    | S f => if i <? 0 then (ra, i)
+             else let '(ra', j) := modin_round ra (if self then rev (strip0 p (rev ra)) else rb) in
+                  modin_loop f self rb ra' (i - Z.of_nat j - 1)
+    end.
+  (* i = A.size() - B.size(); if (i >= 0) { rounds; A.erase(A.begin(), A.begin() + (A.size() - B.size() - i)); }
+     return setdegree(A)        (A and B normalised representations) *)
+  Definition pmodin_gen (self : bool) (a b : poly) : poly :=
+    let i := Z.of_nat (length (strip0 p a)) - Z.of_nat (length (strip0 p b)) in
+    if i <? 0 then strip0 p a
+    else let '(ra, i') := modin_loop (S (length (strip0 p a))) self (rev (strip0 p b)) (rev (strip0 p a)) i in
+         strip0 p (rev (firstn (Z.to_nat (Z.of_nat (length (strip0 p b)) + i')) ra)).
+  Definition pmodinv (a b : poly) : poly := pmodin_gen false a b.
 
   (* pseudo division: pdivmod(Q,R,m,A,B)  m A = Q B + R with m = lc(B)^(deg A - deg B + 1), all iterations run *)
   Definition ppdivmodv (a b : poly) : poly * poly * Z :=
-    if pz a then ([], [], 1)
-    else if pc b then (strip0 p a, [], leadv b)
-    else if pc a then ([], strip0 p a, 1)
-    else if negb (pge a b) then ([], strip0 p a, 1)
-    else let m := (leadv b ^ Z.of_nat (S (pdeg1 a - pdeg1 b))) mod p in
+    if pz p a then ([], [], 1)
+    else if pc p b then (strip0 p a, [], leadv p b)
+    else if pc p a then ([], strip0 p a, 1)
+    else if negb (pge p a b) then ([], strip0 p a, 1)
+    else let m := (leadv p b ^ Z.of_nat (S (pdeg1 p a - pdeg1 p b))) mod p in
          (pdivv p (pmulsc a m) b, pmodv (pmulsc a m) b, m).
   Definition ppdq (a b : poly) : poly := fst (fst (ppdivmodv a b)).
   Definition ppdr (a b : poly) : poly := snd (fst (ppdivmodv a b)).
@@ -76,46 +115,106 @@ Section ExtValues.
     | O => (r, m)
     | S n' =>
       let r := strip0 p r in
-      if negb (pge r b) then (r, m)
-      else let t := repeat 0 (pdeg1 r - pdeg1 b)%nat ++ [leadv r] in       (* lc(R) X^(deg R - deg B) *)
-           ppmod_loop n' (psubv p (pscal p (leadv b) r) (pmulv p t (strip0 p b))) b ((m * leadv b) mod p)
+      if negb (pge p r b) then (r, m)
+      else let t := repeat 0 (pdeg1 p r - pdeg1 p b)%nat ++ [leadv p r] in       (* lc(R) X^(deg R - deg B) *)
+           ppmod_loop n' (psubv p (pscal p (leadv p b) r) (pmulv p t (strip0 p b))) b ((m * leadv p b) mod p)
     end.
   Definition ppmodv (a b : poly) : poly * Z :=
-    if pz a then ([], 1)
-    else if pc b then ([], leadv b)
-    else if pc a then (strip0 p a, 1)
-    else if negb (pge a b) then (strip0 p a, 1)
+    if pz p a then ([], 1)
+    else if pc p b then ([], leadv p b)
+    else if pc p a then (strip0 p a, 1)
+    else if negb (pge p a b) then (strip0 p a, 1)
     else let '(r, m) := ppmod_loop (S (length a)) a b 1 in (strip0 p r, m).
   Definition ppmr (a b : poly) : poly := fst (ppmodv a b).
   Definition ppmm (a b : poly) : Z := snd (ppmodv a b).
 End ExtValues.
 
 (* ------------------------------------------------------------------ further steps *)
+(* an operand that is a caller object or a constant of the domain object (Extension's _irred) *)
+Inductive parg : Type := PL (l : loc) | PK (v : poly).
+Definition prd (a : parg) : PM poly := match a with PL l => pload l | PK v => pret v end.
+
 Section ExtSteps.
   Variable p : Z.
   (* PolElement cc(c): the copy constructor of the coefficient vector (exact copy) *)
   Definition V_copy (r a : loc) : PM unit := x <-- pload a ;;; pstor r x.
-  Definition V_zero (r : loc) : PM unit := pstor r [].                              (* assign(R, zero) *)
   Definition V_const (r : loc) (c : Z) : PM unit := pstor r (pconst p c).           (* assign(R, c) / assign(R, Degree(0), c) *)
+  Definition V_assign_arg (r : loc) (a : parg) : PM unit := x <-- prd a ;;; pstor r (strip0 p x).   (* assign(R, A) *)
   Definition V_leadcoef (a : loc) : PM Z := x <-- pload a ;;; pret (leadv p x).
   Definition V_iszero (a : loc) : PM bool := x <-- pload a ;;; pret (pz p x).
-  (* div(R,P,u), divin(R,u), mulin(R,u): R.resize(P.size()) then an index loop: R may be P *)
-  Definition V_divsc (r a : loc) (c : Z) : PM unit := x <-- pload a ;;; pstor r (pdivsc p x c).
+  (* mulin(R,u): an index loop on R *)
   Definition V_mulsc_in (r : loc) (c : Z) : PM unit := x <-- pload r ;;; pstor r (pmulsc p x c).
-  (* modin(A,B): in place remainder; reads B through iterators while A shrinks: A must not be B for the contract of
-     distinct objects; on the same object every coefficient is read before the only cell written in that round *)
-  Definition V_modin (a b : loc) : PM unit := x <-- pload a ;;; y <-- pload b ;;; pstor a (pmodv p x y).
-  (* invmod(S0,A,B): degree(A), degree(B), leadcoef(A), assign(F,A), assign(G,B) all precede the first write of S0;
-     the loop runs on locals *)
-  Definition V_invmod (r a b : loc) : PM unit := x <-- pload a ;;; y <-- pload b ;;; pstor r (pinvmodv p x y).
+  (* modin(A,B): the in place remainder, round by round (pmodin_gen); when B is the object A itself every round reads
+     the cells that the previous one has written *)
+  Definition V_modin (a : loc) (b : parg) : PM unit :=
+    x <-- pload a ;;; y <-- prd b ;;;
+    pstor a (pmodin_gen p (match b with PL l => loc_eqb a l | PK _ => false end) x y).
+
+  (* ---------------------------------------------------------------- givpoly1gcd.inl: the extended Euclid loop
+     the loop body shared by gcd(F,S0,T0,A,B), lcm and invmod:   R1 = T 45, Q = T 47, TMP = T 48, TMP2 = T 49
+       divmod(Q,R1,F,G); leadcoef(r1,R1); if (isZero(r1)) r1 = one; assign(F,G); div(G,R1,r1);          X_head
+       mul(TMP,Q,S1); sub(TMP2,S0,TMP); assign(S0,S1); div(S1,TMP2,r1);                                  X_half S
+       mul(TMP,Q,T1); sub(TMP2,T0,TMP); assign(T0,T1); div(T1,TMP2,r1);                                  X_half T
+     invmod has the head and the S half only *)
+  Definition X_head (f g : loc) : PM Z :=
+    P_divmod p (T 47) (T 45) f g ;;;
+    c <-- V_leadcoef (T 45) ;;;
+    V_assign p f g ;;;
+    V_divsc p g (T 45) (nz1 c) ;;;
+    pret (nz1 c).
+  Definition X_half (s0 s1 : loc) (r1 : Z) : PM unit :=
+    P_mul p (T 48) (T 47) s1 ;;; V_sub p (T 49) s0 (T 48) ;;; V_assign p s0 s1 ;;; V_divsc p s1 (T 49) r1.
+  Definition X_step (f g s0 s1 t0 t1 : loc) : PM unit :=
+    r1 <-- X_head f g ;;; X_half s0 s1 r1 ;;; X_half t0 t1 r1.
+  (* while (! isZero(G)) { ... } *)
+  Fixpoint X_loop (n : nat) (f g s0 s1 t0 t1 : loc) : PM unit :=
+    match n with
+    | O => pskip
+    | S n' => z <-- V_iszero g ;;; if z then pskip else X_step f g s0 s1 t0 t1 ;;; X_loop n' f g s0 s1 t0 t1
+    end.
+  Definition I_step (f g s0 s1 : loc) : PM unit := r1 <-- X_head f g ;;; X_half s0 s1 r1.
+  Fixpoint I_loop (n : nat) (f g s0 s1 : loc) : PM unit :=
+    match n with
+    | O => pskip
+    | S n' => z <-- V_iszero g ;;; if z then pskip else I_step f g s0 s1 ;;; I_loop n' f g s0 s1
+    end.
+
+  (* invmod(S0,A,B), givpoly1gcd.inl:131-185.   F = T 73, G = T 74, S1 = T 75
+       degree(degF,A); degree(degG,B);
+       if (degF <= 0 || degG <= 0) return assign(S0, Degree(0), inv(tt, leadcoef(r0,A)));
+       assign(F,A); assign(G,B); leadcoef(r0,F); leadcoef(r1,G); divin(F,r0); divin(G,r1);
+       assign(S0, Degree(0), inv(tt,r0)); assign(S1, zero);          -- S0 is written AFTER A and B have been saved
+       while (! isZero(G)) { head; S half }  return S0 *)
+  Definition P_invmod (s0 a : loc) (b : parg) : PM unit :=
+    x <-- pload a ;;; y <-- prd b ;;;
+    if ple1 p x || ple1 p y then
+      c <-- V_leadcoef a ;;; V_const s0 (invmod c p)
+    else
+      V_assign p (T 73) a ;;; V_assign_arg (T 74) b ;;;
+      r0 <-- V_leadcoef (T 73) ;;; r1 <-- V_leadcoef (T 74) ;;;
+      V_divsc p (T 73) (T 73) r0 ;;; V_divsc p (T 74) (T 74) r1 ;;;
+      V_const s0 (invmod r0 p) ;;; V_zero (T 75) ;;;
+      I_loop (xfuel p x y) (T 73) (T 74) s0 (T 75).
+  (* a broken order, kept so that its failure is a checked statement: S0 initialised (from leadcoef(A)) before A and
+     B are saved into F and G *)
+  Definition P_invmod_s0_first (s0 a : loc) (b : parg) : PM unit :=
+    x <-- pload a ;;; y <-- prd b ;;;
+    if ple1 p x || ple1 p y then
+      c <-- V_leadcoef a ;;; V_const s0 (invmod c p)
+    else
+      c <-- V_leadcoef a ;;; V_const s0 (invmod c p) ;;;
+      V_assign p (T 73) a ;;; V_assign_arg (T 74) b ;;;
+      r0 <-- V_leadcoef (T 73) ;;; r1 <-- V_leadcoef (T 74) ;;;
+      V_divsc p (T 73) (T 73) r0 ;;; V_divsc p (T 74) (T 74) r1 ;;;
+      V_zero (T 75) ;;;
+      I_loop (xfuel p x y) (T 73) (T 74) s0 (T 75).
 End ExtSteps.
 
 (* ================================================================== Extension<BaseField> *)
 Section Extension.
   Variable p : Z.
   Variable irred : poly.                 (* _irred *)
-  Definition V_modin_k (r : loc) : PM unit := x <-- pload r ;;; pstor r (pmodv p x irred).         (* _pD.modin(r, _irred) *)
-  Definition V_invmod_k (r a : loc) : PM unit := x <-- pload a ;;; pstor r (pinvmodv p x irred).   (* _pD.invmod(r, a, _irred) *)
+  Definition V_modin_k (r : loc) : PM unit := V_modin p r (PK irred).         (* _pD.modin(r, _irred) *)
 
   Definition E_add (r a b : loc) : PM unit := V_add p r a b.
   Definition E_sub (r a b : loc) : PM unit := V_sub p r a b.
@@ -123,7 +222,7 @@ Section Extension.
   (* mul: return _pD.modin(_pD.mul(r,a,b), _irred) *)
   Definition E_mul (r a b : loc) : PM unit := P_mul p r a b ;;; V_modin_k r.
   (* inv: return _pD.invmod(r, a, _irred) *)
-  Definition E_inv (r a : loc) : PM unit := V_invmod_k r a.
+  Definition E_inv (r a : loc) : PM unit := P_invmod p r a (PK irred).
   (* div: PolElement ib; inv(ib, b); return mul(r, a, ib) *)
   Definition E_div (r a b : loc) : PM unit := E_inv (T 20) b ;;; E_mul r a (T 20).
   Definition E_addin (r b : loc) : PM unit := V_addin p r b.
@@ -150,7 +249,7 @@ Section Extension.
   (* mulin: return _pD.modin(_pD.mulin(r,b), _irred) *)
   Definition E_mulin (r b : loc) : PM unit := P_mulin p r b ;;; V_modin_k r.
   (* invin: PolElement a(r); return _pD.invmod(r, a, _irred) *)
-  Definition E_invin (r : loc) : PM unit := V_copy (T 27) r ;;; V_invmod_k r (T 27).
+  Definition E_invin (r : loc) : PM unit := V_copy (T 27) r ;;; P_invmod p r (T 27) (PK irred).
   (* divin: PolElement tmp; inv(tmp,b); return _pD.modin(_pD.mulin(r,tmp), _irred) *)
   Definition E_divin (r b : loc) : PM unit := E_inv (T 28) b ;;; P_mulin p r (T 28) ;;; V_modin_k r.
   (* axpyin: PolElement tmp; _pD.mul(tmp,b,c); return _pD.modin(_pD.addin(r,tmp), _irred) *)
@@ -185,15 +284,17 @@ End Extension.
 Section PolyB.
   Variable p : Z.
   (* divmodin(Q,R,B): if (&Q == &B) { Rep Bt; assign(Bt,B); return divmodin(Q,R,Bt); }  div(Q,R,B); return maxpyin(R,Q,B) *)
-  Definition DMI_body (q r b : loc) : PM unit := V_div p q r b ;;; P_maxpyin p r q b.
+  Definition DMI_body (q r b : loc) : PM unit := P_div p q r b ;;; P_maxpyin p r q b.
   Definition P_divmodin (q r b : loc) : PM unit :=
     if loc_eqb q b then V_assign p (T 40) b ;;; DMI_body q r (T 40) else DMI_body q r b.
   Definition P_divmodin_unguarded (q r b : loc) : PM unit := DMI_body q r b.
 
   (* divin(Q,A): Rep B; div(B,Q,A); return assign(Q,B) *)
-  Definition P_divin (q a : loc) : PM unit := V_div p (T 60) q a ;;; V_assign p q (T 60).
+  Definition P_divin (q a : loc) : PM unit := P_div p (T 60) q a ;;; V_assign p q (T 60).
   (* modin(A,B) *)
-  Definition P_modin (a b : loc) : PM unit := V_modin p a b.
+  Definition P_modin (a b : loc) : PM unit := V_modin p a (PL b).
+  (* invmod(R,A,B) *)
+  Definition P_invmod_l (r a b : loc) : PM unit := P_invmod p r a (PL b).
   (* div(R,P,u) *)
   Definition P_divsc (r a : loc) (u : Z) : PM unit := V_divsc p r a u.
 
@@ -241,24 +342,6 @@ Section PolyB.
     else V_neg p r a ;;; y <-- pload r ;;; pstor r (strip0 p (set0 y ((hd 0 y + v) mod p))).
 
   (* ---------------------------------------------------------------- givpoly1gcd.inl *)
-  (* the loop body shared by gcd(F,S0,T0,A,B), lcm (and invmod):   R1 = T 45, Q = T 47, TMP = T 48, TMP2 = T 49
-       divmod(Q,R1,F,G); leadcoef(r1,R1); if (isZero(r1)) r1 = one; assign(F,G); div(G,R1,r1);
-       mul(TMP,Q,S1); sub(TMP2,S0,TMP); assign(S0,S1); div(S1,TMP2,r1);
-       mul(TMP,Q,T1); sub(TMP2,T0,TMP); assign(T0,T1); div(T1,TMP2,r1); *)
-  Definition X_step (f g s0 s1 t0 t1 : loc) : PM unit :=
-    P_divmod p (T 47) (T 45) f g ;;;
-    c <-- V_leadcoef p (T 45) ;;;
-    V_assign p f g ;;;
-    V_divsc p g (T 45) (nz1 c) ;;;
-    P_mul p (T 48) (T 47) s1 ;;; V_sub p (T 49) s0 (T 48) ;;; V_assign p s0 s1 ;;; V_divsc p s1 (T 49) (nz1 c) ;;;
-    P_mul p (T 48) (T 47) t1 ;;; V_sub p (T 49) t0 (T 48) ;;; V_assign p t0 t1 ;;; V_divsc p t1 (T 49) (nz1 c).
-  (* while (! isZero(G)) { ... } *)
-  Fixpoint X_loop (n : nat) (f g s0 s1 t0 t1 : loc) : PM unit :=
-    match n with
-    | O => pskip
-    | S n' => z <-- V_iszero p g ;;; if z then pskip else X_step f g s0 s1 t0 t1 ;;; X_loop n' f g s0 s1 t0 t1
-    end.
-
   (* gcd(F,S0,T0,A,B) after its guard: G = T 43, S1 = T 44, T1 = T 46 *)
   Definition X_gcd_body (f s t a b : loc) : PM unit :=
     x <-- pload a ;;; y <-- pload b ;;;                     (* degree(degF,A); degree(degG,B) *)
@@ -273,7 +356,7 @@ Section PolyB.
       r0 <-- V_leadcoef p f ;;; r1 <-- V_leadcoef p (T 43) ;;;
       V_divsc p f f r0 ;;; V_divsc p (T 43) (T 43) r1 ;;;
       V_const p s (invmod r0 p) ;;; V_zero (T 44) ;;; V_zero t ;;; V_const p (T 46) (invmod r1 p) ;;;
-      X_loop (xfuel p x y) f (T 43) s (T 44) t (T 46).
+      X_loop p (xfuel p x y) f (T 43) s (T 44) t (T 46).
   (* if (an output is A or B) { Rep At, Bt; assign(At,A); assign(Bt,B); return gcd(F,S0,T0,At,Bt); } *)
   Definition P_gcdx (f s t a b : loc) : PM unit :=
     if loc_eqb f a || loc_eqb f b || loc_eqb s a || loc_eqb s b || loc_eqb t a || loc_eqb t b then
@@ -294,7 +377,7 @@ Section PolyB.
       r0 <-- V_leadcoef p f ;;; r1 <-- V_leadcoef p (T 43) ;;;
       V_divsc p f f r0 ;;; V_divsc p (T 43) (T 43) r1 ;;;
       V_const p (T 52) (invmod r0 p) ;;; V_zero (T 44) ;;; V_zero (T 53) ;;; V_const p (T 46) (invmod r1 p) ;;;
-      X_loop (xfuel p x y) f (T 43) (T 52) (T 44) (T 53) (T 46) ;;;
+      X_loop p (xfuel p x y) f (T 43) (T 52) (T 44) (T 53) (T 46) ;;;
       g <-- pload (T 43) ;;;
       if ple1 p g then (if pge p x y then P_mul p f (T 44) a else P_mul p f (T 46) a)
       else P_mul p f a b.
@@ -305,10 +388,11 @@ Section PolyB.
 
   (* ---------------------------------------------------------------- givpoly1misc.inl: powmod(W,P,pwr,U)
      if (&W == &U) { Rep Ut; assign(Ut,U); return powmod(W,P,pwr,Ut); }
-     mod(puiss,P,U); assign(W,one); while (n > 0) { if (n & 1) { mulin(W,puiss); modin(W,U); }
-                                                    sqr(tmp,puiss); mod(puiss,tmp,U); n >>= 1; }  return setDegree(W)
-     puiss = T 61, tmp = T 62 *)
-  Definition PW_odd (w u : loc) : PM unit := P_mulin p w (T 61) ;;; V_modin p w u.
+     mod(puiss,P,U); mod(W,one,U); while (n > 0) { if (n & 1) { mulin(W,puiss); modin(W,U); }
+                                                   sqr(tmp,puiss); mod(puiss,tmp,U); n >>= 1; }  return setDegree(W)
+     (givpoly1misc.inl:255-284; P^0 mod U is zero when U is a non zero constant)
+     puiss = T 61, tmp = T 62; `one` is a member of the domain object, no caller object: T 67, set before the body *)
+  Definition PW_odd (w u : loc) : PM unit := P_mulin p w (T 61) ;;; V_modin p w (PL u).
   Definition PW_sq (u : loc) : PM unit := P_sqr p (T 62) (T 61) ;;; P_mod p (T 61) (T 62) u.
   Fixpoint PW_loop (e : positive) (w u : loc) : PM unit :=
     match e with
@@ -317,7 +401,7 @@ Section PolyB.
     | xI e' => PW_odd w u ;;; PW_sq u ;;; PW_loop e' w u
     end.
   Definition PW_body (w a : loc) (e : Z) (u : loc) : PM unit :=
-    P_mod p (T 61) a u ;;; V_const p w 1 ;;;
+    P_mod p (T 61) a u ;;; V_const p (T 67) 1 ;;; P_mod p w (T 67) u ;;;
     match e with Z0 => pskip | Zpos e' => PW_loop e' w u | Zneg e' => PW_loop e' w u end ;;;
     V_assign p w w.
   Definition P_powmod (w a : loc) (e : Z) (u : loc) : PM unit :=
@@ -334,12 +418,14 @@ Definition run_ext_byref (p : Z) (irred : poly) (op : nat) (ir ia ib ic : positi
   [h (U ir); h (U ia); h (U ib); h (U ic)].
 
 (* single destination entry points; k = the coefficient / exponent argument when there is one
-   0 lcm(r,a,b)  1 divin(r,a)  2 modin(r,a)  3 powmod(r,a,k,b)  4 add(r,a,k)  5 sub(r,a,k)  6 sub(r,k,a)  7.. div(r,a,k) *)
+   0 lcm(r,a,b)  1 divin(r,a)  2 modin(r,a)  3 powmod(r,a,k,b)  4 add(r,a,k)  5 sub(r,a,k)  6 sub(r,k,a)  8 invmod(r,a,b)
+   7, 9.. div(r,a,k) *)
 Definition polyB_op (p : Z) (k : Z) (op : nat) : pop4 :=
   match op with
   | 0 => fun r a b _ => P_lcm p r a b | 1 => fun r a _ _ => P_divin p r a | 2 => fun r a _ _ => P_modin p r a
   | 3 => fun r a b _ => P_powmod p r a k b
   | 4 => fun r a _ _ => P_add_sc p r a k | 5 => fun r a _ _ => P_sub_sc p r a k | 6 => fun r a _ _ => P_sc_sub p r a k
+  | 8 => fun r a b _ => P_invmod_l p r a b
   | _ => fun r a _ _ => P_divsc p r a k
   end%nat.
 Definition run_polyB (p : Z) (k : Z) (op : nat) (ir ia ib ic : positive) (vr va vb vc : poly) : list poly :=
